@@ -320,6 +320,8 @@ class WebSocket:
             if self.sock:
                 self.sock.close()
                 self.sock = None
+            # also when the object was connected before this call
+            self.connected = False
             raise
 
     def send(self, payload: Union[bytes, str], opcode: int = ABNF.OPCODE_TEXT) -> int:
